@@ -405,6 +405,19 @@ def closestAlpha (I : Nat) (e0 e1 : Nat) (pixels : List Nat) : Nat × Nat :=
 def closestError {α : Type} (dist : α → α → Nat) (palette : List α) (pixels : List α) : Nat :=
   pixels.foldl (fun error p => (error + palette.foldl (fun best c => min best (dist c p)) (U32 - 1)) % U32) 0
 
+/-- what an exhaustive first-minimum search returns (`r` = (index list, error), `d` = default of `getD` only):
+per pixel the chosen index is in range, its palette entry is at least as close as EVERY palette entry and strictly
+closer than every EARLIER entry (ties go to the lowest index); the error is the sum of the chosen squared distances,
+at most `n · B`; the index word holds 16 entries of `I` bits -/
+def ArgminSpec {α : Type} (I : Nat) (dist : α → α → Nat) (pal pixels : List α) (d : α) (B : Nat) (r : Nat × Nat) : Prop :=
+  (∀ i, i < pixels.length →
+    get I r.1 i < 2 ^ I ∧
+    (∀ j, j < 2 ^ I → dist (pixels.getD i d) (pal.getD (get I r.1 i) d) ≤ dist (pixels.getD i d) (pal.getD j d)) ∧
+    (∀ j, j < get I r.1 i → dist (pixels.getD i d) (pal.getD (get I r.1 i) d) < dist (pixels.getD i d) (pal.getD j d))) ∧
+  r.2 = ((List.range pixels.length).map fun i => dist (pixels.getD i d) (pal.getD (get I r.1 i) d)).sum ∧
+  r.2 ≤ pixels.length * B ∧
+  r.1 < 2 ^ (16 * I)
+
 /-! ### what the encoder intends a written block to decode to -/
 
 /-- subset of pixel `i`: `PARTITION_SET_3[partition].get_subset_index(i)` (modes 0, 2),
@@ -471,5 +484,7 @@ def Fields.WF (f : Fields) : Prop :=
   (∀ k, k < (modeShape f.mode).2.2.2.1 → px f.pBits k < 2) ∧
   f.indexes < 2 ^ (16 * (modeShape f.mode).2.2.2.2.1) ∧
   f.indexes2 < 2 ^ (16 * (modeShape f.mode).2.2.2.2.2.1)
+
+instance (f : Fields) : Decidable f.WF := by unfold Fields.WF; exact inferInstance
 
 end Dds.Enc7
